@@ -7,7 +7,7 @@ G = None
 def register(progs, g):
     global G
     G = g
-    progs.update({'C17': prog_C17, 'C03': prog_C03, 'C16': prog_C16, 'C01': prog_C01, 'C02': prog_C02, 'C08': prog_C08, 'C09': prog_C09, 'C10': prog_C10, 'C15': prog_C15, 'C18': prog_C18, 'C07': prog_C07, 'C11': prog_C11, 'C13': prog_C13, 'C14': prog_C14, 'C12': prog_C12, 'C20': prog_C20})
+    progs.update({'C17': prog_C17, 'C03': prog_C03, 'C16': prog_C16, 'C01': prog_C01, 'C02': prog_C02, 'C08': prog_C08, 'C09': prog_C09, 'C10': prog_C10, 'C15': prog_C15, 'C18': prog_C18, 'C07': prog_C07, 'C11': prog_C11, 'C13': prog_C13, 'C14': prog_C14, 'C12': prog_C12, 'C20': prog_C20, 'C04': prog_C04})
 
 
 def plain_diff(ops_path, a_path, b_path, limit=40):
@@ -342,3 +342,18 @@ def prog_C20(ctx):
         for mline in (res['stats'].get('Monitors') or []):
             if 'reinit' in mline and (mline.startswith('C08 ') or mline.startswith('C18 ')):
                 ctx.violations.append(dict(kind='impl-counterexample', driver='nodediff', what='C20 ' + mline))
+
+
+def prog_C04(ctx):
+    G['step_translate'](ctx)
+    G['step_proofs'](ctx, ['Dc4bcVerif.Props.C04', 'Dc4bcVerif.Props.C02'])
+    ctx.cov['trusted_base'] = BASE_TRUSTED + [
+        'symbolic model Model/Sym.lean: the terms a machine exports are written by hand from airgapped/dkg.go and airgapped/bls.go; cryptography is perfect by construction (ECIES, Schnorr, BLS, exponentiation are constructors without inverses)',
+        'secretdiff (no model stream: the real code under monitors): three key generations (same participants; same and different threshold) and two signing batches on the same real machines; every result file, every board message and every file of every airgapped database is searched for every secret read through the verif hooks (long-term key, seed, every polynomial coefficient, every BLS share) raw, reversed, hex, HEX, base64 std/url with and without padding, also inside JSON-nested base64 to depth 4; every (deal, machine key) pair is tried with ecies.Decrypt; five wrong passwords per machine after a correct unlock in the same process; shares, public polynomials and dealer coefficients of all pairs of rounds are compared',
+        'not covered: process memory, swap, side channels, strength of scrypt/AES-GCM/ECIES; the base seed itself is stored in the clear in the database (the property names the private key and the shares as encrypted at rest, not the seed; recorded in DESIGN.md as an observation)']
+    ctx.cov['rule'] = 'quick: (3,2); thorough: (3,2),(2,2),(4,3),(4,2); all outputs of the three rounds and two batches'
+    st = monitor_only(ctx, 'secretdiff', ['C04'], 'secret_scan')
+    if st:
+        ctx.cov.update(evaluations=st['Searches'] + st['DealPairs'] + st['WrongPasswords'] + st['RoundPairs'], distinct_nontrivial=st['Secrets'] + st['Haystacks'], exhaustive=False,
+                       samples=[], input_histogram=dict(secrets=st['Secrets'], haystacks=st['Haystacks'], deal_key_pairs=st['DealPairs'], wrong_passwords=st['WrongPasswords'], round_pairs=st['RoundPairs']),
+                       traces_validated_against_impl=0)
